@@ -33,6 +33,7 @@ type Ctx struct {
 	onceKeys         map[string]bool
 	pathFallbackOpen bool
 	lenEq            map[*types.Named]map[int][]int
+	lenEqWriters     map[*types.Named]map[*ssa.Function]bool
 	derefVia         map[ssa.Instruction]ssa.Value
 	outcomeBusy      map[*ssa.Function]bool
 	listBusy         map[*ssa.Phi]bool
